@@ -187,7 +187,7 @@ PROPS = {
     },
     "C15": {
         "lean": "Originium.Props.C15",
-        "suites": ["closerace", "txnconc"],
+        "suites": ["closerace", "txnconc", "db"],
         "skeleton_funcs": ["DB.Close", "DB.run", "DB.rawset", "Txn.Commit", "oracle.readTs", "oracle.newCommitTs", "oracle.doneCommit", "DB.search",
                            "DB.flushImmutable", "levelManager.flushToL0", "levelManager.checkAndCompact", "levelManager.searchLowerBound",
                            "pkg/watermark:WaterMark.WaitForMark", "pkg/watermark:WaterMark.process", "memtable.set", "memtable.freeze", "memtable.reset"],
